@@ -35,6 +35,8 @@ func runC09(c *core.Ctx) {
 	c.Rule("C09.boundary", "A1: Topic.EventStates(minLevel) stops exactly at Level < minLevel; Topics.TopicState keeps a topic iff level >= minLevel")
 	c.Rule("C09.restore", "A2: Topic.restoreEventStatesNoCopy replaces both events and sorted by fresh allocations on every path, fills both for every restored state and sorts afterwards")
 	c.Rule("C09.ensure", "A1/A3: Topics.UpdateEvent/RegisterHandler/ReplaceHandler/Collect create a missing topic, store it under the requested id and operate on the created topic (never on the nil lookup result)")
+	c.Rule("C09.create", "A1/A5: Topics.Collect creates a topic only after it looked the topic up again under the write lock (the first lookup is made under the read lock, which was released): on every path that calls newTopic a miss on s.topics[…] is decided after mu.Lock()")
+	c.Rule("C09.table", "A3: Service.UpdateHandlerSpec removes from the service's per-topic handler table the entry of the handler it replaces (the key it looked the old handler up with) and stores the new one under the new spec's id")
 	c.Rule("C09.close", "A6: Topic.removeHandler, Topic.close, Topics.Close, Topics.DeleteTopic end handlers with bufHandler.Close (drain); bufHandler.Abort is not reachable from them")
 	c.Rule("C09.buffer", "A2: newHandler starts exactly one goroutine running run(); bufHandler.Handle only enqueues on events without blocking; run() delivers every received event to the wrapped handler and returns on the closed channel only")
 	c.Rule("C09.locks", "A5: Topic.{events,sorted,handlers} are accessed only under Topic.mu and Topics.topics only under Topics.mu")
@@ -51,6 +53,8 @@ func runC09(c *core.Ctx) {
 	c09Boundary(c, pkg)
 	c09Restore(c, pkg, "C09.restore")
 	c09Ensure(c, pkg)
+	c09Create(c, pkg)
+	c09Table(c)
 	c09Close(c, pkg)
 	c09Buffer(c, pkg)
 	ruleGuardedBy(c, "C09.locks", pkg, guardSpec{typ: "Topic", mu: "mu", fields: map[string]bool{"events": true, "sorted": true, "handlers": true},
@@ -863,4 +867,100 @@ func c09BufferAs(c *core.Ctx, pkg *packages.Package, rule string) {
 			c.Ok(rule, "bufHandler.run")
 		}
 	}
+}
+
+func c09Create(c *core.Ctx, pkg *packages.Package) {
+	info := pkg.TypesInfo
+	fn := c.Need("C09.create", "alert", "Topics", "Collect")
+	if fn == nil {
+		return
+	}
+	eng := &an.Engine{Prog: c.P,
+		TrackCall: func(call *ast.CallExpr, callee *types.Func) string {
+			if callee == nil {
+				return ""
+			}
+			if callee.Name() == "newTopic" {
+				return "newTopic"
+			}
+			if callee.Name() == "Lock" {
+				if sel, ok := call.Fun.(*ast.SelectorExpr); ok && an.FieldSel(info, sel.X, "Topics", "mu") {
+					return "Lock"
+				}
+			}
+			return ""
+		},
+		TrackExpr: func(x ast.Expr) string {
+			if ix, ok := x.(*ast.IndexExpr); ok && an.FieldSel(info, ix.X, "Topics", "topics") {
+				return "lookup"
+			}
+			return ""
+		}}
+	paths, err := eng.Run(fn)
+	if err != nil {
+		c.Undecided("C09.create", "Topics.Collect", fn.Decl.Pos(), "%v", err)
+		return
+	}
+	good, n := len(paths) > 0, 0
+	for _, p := range paths {
+		nt := p.Index("newTopic")
+		if nt < 0 {
+			continue
+		}
+		n++
+		lock := p.Index("Lock")
+		rechecked := false
+		for i, e := range p.Events {
+			if e.Name == "lookup" && e.Kind != "store" && lock >= 0 && i > lock && i < nt {
+				rechecked = true
+			}
+		}
+		if !rechecked {
+			good = false
+			c.Fail("C09.create", "Topics.Collect#recheck", p.RetPos, "a topic is created without looking it up again under the write lock: two first publishers (or a publisher and a RegisterHandler) each create the topic, the later store replaces the earlier one, and the events and handlers of the replaced topic are lost")
+		}
+	}
+	if good && n > 0 {
+		c.Ok("C09.create", "Topics.Collect")
+	} else if good {
+		c.Fail("C09.create", "Topics.Collect", fn.Decl.Pos(), "no path of Collect creates a missing topic")
+	}
+}
+
+func c09Table(c *core.Ctx) {
+	sp := c.P.Pkg("services/alert")
+	if sp == nil {
+		c.Note("C09.table: services/alert is not loaded in this run")
+		return
+	}
+	info := sp.TypesInfo
+	fn := c.Need("C09.table", "services/alert", "Service", "UpdateHandlerSpec")
+	if fn == nil {
+		return
+	}
+	oldP, newP := an.ParamName(fn.Decl.Type, 0), an.ParamName(fn.Decl.Type, 1)
+	lookupKey, deleteKey, storeKey := "", "", ""
+	ast.Inspect(fn.Decl.Body, func(n ast.Node) bool {
+		switch x := n.(type) {
+		case *ast.AssignStmt:
+			if len(x.Rhs) == 1 {
+				if ix, ok := ast.Unparen(x.Rhs[0]).(*ast.IndexExpr); ok {
+					if inner, ok := ast.Unparen(ix.X).(*ast.IndexExpr); ok && an.FieldSel(info, inner.X, "Service", "handlers") {
+						lookupKey = types.ExprString(ix.Index)
+					}
+				}
+			}
+		case *ast.CallExpr:
+			if core.IsBuiltin(info, x, "delete") && len(x.Args) == 2 {
+				if inner, ok := ast.Unparen(x.Args[0]).(*ast.IndexExpr); ok && an.FieldSel(info, inner.X, "Service", "handlers") {
+					deleteKey = types.ExprString(x.Args[1])
+				}
+			}
+			if f := core.Callee(info, x); f != nil && f.Name() == "setTopicHandler" && len(x.Args) == 3 {
+				storeKey = types.ExprString(x.Args[1])
+			}
+		}
+		return true
+	})
+	c.Check(lookupKey == oldP+".ID" && deleteKey == lookupKey && storeKey == newP+".ID", "C09.table", "Service.UpdateHandlerSpec#keys", fn.Decl.Pos(), "the replaced handler is looked up under %q, the table entry deleted is %q, the new handler is stored under %q; they must be %s.ID, %s.ID, %s.ID: otherwise a renamed handler stays in the service's table and is registered again when its topic is restored — every event then also goes to a handler that no longer exists", lookupKey, deleteKey, storeKey, oldP, oldP, newP)
 }
